@@ -1,9 +1,10 @@
 """Native replay of a C03 counterexample: runs the REAL functions of the tree under test and evaluates
 the ghost specification (specs/port_selection.py) in CPython.  exit 1 = violation reproduced, 0 = not reproduced."""
 import json
+import os
 import sys
 
-sys.path.insert(0, '/verif/native')
+sys.path.insert(0, os.path.dirname(os.path.abspath(__file__)))
 import mkmodel  # noqa: E402
 
 mkmodel.assert_tree()
